@@ -8336,7 +8336,7 @@ func (p *parser) parseStmt(opts parseStmtOpts) js_ast.Stmt {
 						// "interface Foo {}"
 						// "export default interface Foo {}"
 						// "export default interface \n Foo {}"
-						if !p.lexer.HasNewlineBefore || opts.isExportDefault {
+						if (!p.lexer.HasNewlineBefore && p.lexer.Token == js_lexer.TIdentifier) || opts.isExportDefault {
 							p.skipTypeScriptInterfaceStmt(parseStmtOpts{isModuleScope: opts.isModuleScope})
 							return js_ast.Stmt{Loc: loc, Data: js_ast.STypeScriptShared}
 						}
